@@ -1,7 +1,146 @@
 import Driver.Common
+import Log4rsModel.Routing.Builder
+/-
+C13 driver.
+case   : rootLevel TAB appenders TAB rootRefs TAB loggers
+           appenders = `,`-list of names (the position is the identity of the Append object)
+           rootRefs  = `,`-list of names
+           loggers   = `,`-list of  name;level;additive;refs   with refs a `|`-list of names
+observation (one field, blank-separated key=value):
+  strict=ok|err  serrors=<errs>|-  errors=<errs>  lossy=<cfg>  install=ok|PANIC
+  strictcfg=<cfg>|-  strictinstall=ok|PANIC|-
+    errs = `,`-list of kind:name (kind ∈ da ne dl il), in reported order
+    cfg  = apps/root/loggers, apps = `,`-list of name:id, root = level;refs, loggers as in the case
+-/
 namespace Driver.C13
-open Driver
+open Log4rs.Proto Log4rs.Routing Driver
 
-def handle : Handler := fun _ _ => badCase "unimplemented"
+def decNames (sep : Char) (s : String) : Option (List Name) := mapM? decStr (decList sep s)
+
+def decLogger (s : String) : Option LoggerCfg :=
+  match splitOnChar ';' s with
+  | [n, lv, ad, refs] =>
+    match decStr n, decNat lv, decBool ad, decNames '|' refs with
+    | some n, some lv, some ad, some refs => some { name := n, level := lv, additive := ad, appenders := refs }
+    | _, _, _, _ => none
+  | _ => none
+
+def decInput (lv apps root logs : String) : Option BuilderInput :=
+  match decNat lv, decNames ',' apps, decNames ',' root, mapM? decLogger (decList ',' logs) with
+  | some lv, some apps, some root, some logs =>
+    some { appenders := apps.zipIdx.map (fun p => { name := p.1, id := p.2 }), rootLevel := lv,
+           rootAppenders := root, loggers := logs }
+  | _, _, _, _ => none
+
+def kindTag : ErrKind → String
+  | .dupAppender => "da" | .nonexistent => "ne" | .dupLogger => "dl" | .invalidName => "il"
+
+def decKind : String → Option ErrKind
+  | "da" => some .dupAppender | "ne" => some .nonexistent | "dl" => some .dupLogger
+  | "il" => some .invalidName | _ => none
+
+def renderErrs (es : List CfgError) : String :=
+  encList "," (es.map fun e => kindTag e.kind ++ ":" ++ encStr e.name)
+
+def decErrs (s : String) : Option (List CfgError) :=
+  mapM? (fun x => match splitOnChar ':' x with
+    | [k, n] => match decKind k, decStr n with
+      | some k, some n => some (⟨k, n⟩ : CfgError)
+      | _, _ => none
+    | _ => none) (decList ',' s)
+
+def renderLogger (l : LoggerCfg) : String :=
+  encStr l.name ++ ";" ++ toString l.level ++ ";" ++ encBool l.additive ++ ";" ++
+    encList "|" (l.appenders.map encStr)
+
+def renderCfg (cfg : Config) (kept : List AppenderDecl) : String :=
+  encList "," (kept.map fun a => encStr a.name ++ ":" ++ toString a.id) ++ "/" ++
+  toString cfg.rootLevel ++ ";" ++ encList "|" (cfg.rootAppenders.map encStr) ++ "/" ++
+  encList "," (cfg.loggers.map renderLogger)
+
+def renderInstall (cfg : Config) : String :=
+  match install cfg with
+  | .ok _ => "ok"
+  | _ => "PANIC"
+
+def modelObs (inp : BuilderInput) : String :=
+  let r := buildLossy inp
+  let strictOk := isOk (build inp)
+  " ".intercalate [
+    "strict=" ++ (if strictOk then "ok" else "err"),
+    "serrors=" ++ (if strictOk then "-" else renderErrs r.errors),
+    "errors=" ++ renderErrs r.errors,
+    "lossy=" ++ renderCfg r.config r.kept,
+    "install=" ++ renderInstall r.config,
+    "strictcfg=" ++ (if strictOk then renderCfg r.config r.kept else "-"),
+    "strictinstall=" ++ (if strictOk then renderInstall r.config else "-")]
+
+def lookupKey (kvs : List (String × String)) (k : String) : Option String :=
+  (kvs.find? (·.1 = k)).map (·.2)
+
+def parseObs (s : String) : List (String × String) :=
+  (splitOnChar ' ' s).filterMap fun kv =>
+    match splitOnChar '=' kv with
+    | [k, v] => some (k, v)
+    | _ => none
+
+def subsetOf (xs ys : List CfgError) : Bool := xs.all (ys.contains ·)
+
+/-- the statement, clause by clause, evaluated on what the real code did -/
+def specVerdict (inp : BuilderInput) (obs : String) : Option String :=
+  let kv := parseObs obs
+  match lookupKey kv "strict", lookupKey kv "serrors", lookupKey kv "errors", lookupKey kv "lossy",
+        lookupKey kv "install", lookupKey kv "strictcfg", lookupKey kv "strictinstall" with
+  | some strict, some serrors, some errors, some lossy, some inst, some scfg, some sinst =>
+    let wf := wellFormedB inp
+    let want := specErrors inp
+    let sl := specLossy inp
+    if strict != (if wf then "ok" else "err") then some "strict-accepts-iff-wellformed"
+    else match decErrs errors, (if serrors = "-" then some [] else decErrs serrors) with
+      | some es, some ses =>
+        if !subsetOf es want then some "lossy-error-names-innocent-item"
+        else if !subsetOf want es then some "lossy-offending-item-not-reported"
+        else if !wf && !subsetOf ses want then some "strict-error-names-innocent-item"
+        else if !wf && !subsetOf want ses then some "strict-offending-item-not-reported"
+        else if wf && serrors != "-" then some "strict-ok-with-errors"
+        else if lossy != renderCfg sl.1 sl.2 then some "lossy-not-exactly-valid-part"
+        else if inst != "ok" then some "lossy-config-install-panics"
+        else if wf && scfg != renderCfg inp.toConfig inp.appenders then some "strict-config-not-the-input"
+        else if wf && sinst != "ok" then some "strict-config-install-panics"
+        else if !wf && (scfg != "-" || sinst != "-") then some "strict-err-with-config"
+        else none
+      | _, _ => some "unreadable-errors"
+  | _, _, _, _, _, _, _ => some "unreadable-observation"
+
+def tagsOf (inp : BuilderInput) : List String :=
+  let es := specErrors inp
+  let has (k : ErrKind) := es.any (·.kind = k)
+  let droppedWithDangling := (withEarlier inp.loggers).any fun p =>
+    (repeats (·.name) p || !specName p.2.name) && !(dangling inp p.2.appenders).isEmpty
+  let leadPair := inp.loggers.any fun l => specName l.name && l.name.take 2 = [':', ':']
+  let t := (if es.isEmpty then ["wellformed"] else ["malformed"])
+    ++ (if has .dupAppender then ["dup-appender"] else [])
+    ++ (if has .dupLogger then ["dup-logger"] else [])
+    ++ (if has .invalidName then ["invalid-name"] else [])
+    ++ (if !(dangling inp inp.rootAppenders).isEmpty then ["dangling-root"] else [])
+    ++ (if has .nonexistent && (dangling inp inp.rootAppenders).length < (es.filter (·.kind = .nonexistent)).length
+        then ["dangling-logger"] else [])
+    ++ (if droppedWithDangling then ["dropped-logger-dangling-silent"] else [])
+    ++ (if leadPair then ["leading-pair-accepted"] else [])
+    ++ (if inp.loggers.any (fun l => l.name.contains ':') then ["colon-name"] else [])
+  if inp.appenders.isEmpty && inp.loggers.isEmpty && inp.rootAppenders.isEmpty then "trivial" :: t else t
+
+def handle : Handler := fun cas obs =>
+  match cas, obs with
+  | [lv, apps, root, logs], [implObs] =>
+    match decInput lv apps root logs with
+    | none => badCase "input"
+    | some inp =>
+      { model := modelObs inp,
+        spec := match specVerdict inp implObs with
+          | none => "ok"
+          | some clause => "FAIL:" ++ clause ++ ";sig=C13/" ++ clause,
+        tags := tagsOf inp }
+  | _, _ => badCase "arity"
 
 end Driver.C13
